@@ -73,6 +73,7 @@ def run(ctx):
     cases, mism2, lat_som, lat_eom = base.receiver_level(ctx, rng, 42 if quick else 600, "C08")
     import rxlib as _rx
     ctx.coverage["reuse_after_reset_same_message_times"] = _rx.reset_reuse(ctx, rng.fork("reset"), 3 if quick else 20, lambda t: t.startswith("TM"), False, "message events (with timestamps)")
+    ctx.coverage["known_finding_F11_witness_reproduces"] = _rx.run_f11_witness(ctx, "C08")
     ctx.coverage["second_header_during_alert_ok"] = during_alert(ctx, rng.fork("alert"), 4 if quick else 40)
     for (lat, tx) in lat_som:
         if lat > 1.5:
